@@ -63,6 +63,12 @@ func TestVerifChild_Run(t *testing.T) {
 	}
 	h := NewWHub(kit.HubOpts{Dir: sc.Dir})
 	_ = os.WriteFile(filepath.Join(sc.Dir, "ready"), []byte("open\n"), 0o644)
+	opened := time.Now()
+	if ns, err := strconv.ParseInt(os.Getenv("VERIF_KILL_AFTER_NS"), 10, 64); err == nil && ns >= 0 {
+		// a kill at an arbitrary instant of the op sequence, timed by the process itself (the parent's
+		// clock is useless on a busy machine)
+		time.AfterFunc(time.Duration(ns), func() { _ = syscall.Kill(os.Getpid(), syscall.SIGKILL) })
+	}
 	for k, op := range sc.Ops {
 		mark(k)
 		if err := execOp(h, op); err != nil {
@@ -72,6 +78,7 @@ func TestVerifChild_Run(t *testing.T) {
 		fmt.Fprintf(ack, "%d\n", k)
 		_ = ack.Sync()
 	}
+	_ = os.WriteFile(filepath.Join(sc.Dir, "opstime"), []byte(strconv.FormatInt(int64(time.Since(opened)), 10)), 0o644)
 	_ = h.Store.Close()
 	os.Exit(0)
 }
@@ -103,6 +110,9 @@ func runWriterChildKill(sc crashScript, env []string, timeout time.Duration, kil
 	cmd := exec.Command(os.Args[0], "-test.run", "^TestVerifChild_Run$", "-test.count", "1")
 	cmd.Env = append(os.Environ(), "VERIF_CHILD_SCRIPT="+sp, "VERIF_STATS=", "VERIF_JOURNAL=")
 	cmd.Env = append(cmd.Env, env...)
+	if killAfter >= 0 {
+		cmd.Env = append(cmd.Env, "VERIF_KILL_AFTER_NS="+strconv.FormatInt(int64(killAfter), 10))
+	}
 	cmd.Dir = sc.Dir
 	var sb strings.Builder
 	cmd.Stdout = &sb
@@ -113,43 +123,8 @@ func runWriterChildKill(sc crashScript, env []string, timeout time.Duration, kil
 	}
 	done := make(chan error, 1)
 	go func() { done <- cmd.Wait() }()
-	// wait for the "hub is open" marker (or the end of the child)
-	ready := filepath.Join(sc.Dir, "ready")
-	var openAt time.Time
-	var early error
-	exited := false
-	deadline := time.Now().Add(timeout)
-	for openAt.IsZero() && !exited && time.Now().Before(deadline) {
-		if _, err := os.Stat(ready); err == nil {
-			openAt = time.Now()
-			break
-		}
-		select {
-		case early = <-done:
-			exited = true
-		case <-time.After(300 * time.Microsecond):
-		}
-	}
-	if exited {
-		done <- early
-	}
-	var kill <-chan time.Time
-	if killAfter >= 0 && !openAt.IsZero() {
-		kill = time.After(killAfter)
-	}
+	res.timed = killAfter >= 0
 	select {
-	case <-kill:
-		_ = cmd.Process.Signal(syscall.SIGKILL)
-		res.timed = true
-		err := <-done
-		if ee, ok := err.(*exec.ExitError); ok {
-			if ws, ok := ee.Sys().(syscall.WaitStatus); ok && ws.Signaled() {
-				res.killed = true
-				res.exit = -int(ws.Signal())
-			} else {
-				res.exit = ee.ExitCode()
-			}
-		}
 	case err := <-done:
 		if err != nil {
 			if ee, ok := err.(*exec.ExitError); ok {
@@ -170,8 +145,10 @@ func runWriterChildKill(sc crashScript, env []string, timeout time.Duration, kil
 		res.exit = 3
 	}
 	res.out = sb.String()
-	if !openAt.IsZero() {
-		res.opsTime = time.Since(openAt)
+	if b, err := os.ReadFile(filepath.Join(sc.Dir, "opstime")); err == nil {
+		if ns, err := strconv.ParseInt(strings.TrimSpace(string(b)), 10, 64); err == nil {
+			res.opsTime = time.Duration(ns)
+		}
 	}
 	if f, err := os.Open(filepath.Join(sc.Dir, "ack")); err == nil {
 		s := bufio.NewScanner(f)
